@@ -192,6 +192,10 @@ def plan(seed, tier="quick", index=0):
         "delay_mode": rng.choice(["none", "none", "jitter", "slow"]),
         "fault": None,
     }
+    if stratum == "clean" and nframes >= 2 and rng.random() < 0.4:
+        sc["abandon_after"] = rng.randrange(1, nframes)
+        sc["cut_mode"] = rng.choice(["whole", "whole", "frames", "random"])
+        sc["reconnect"] = {"recycle_identity": rng.random() < 0.7, "frames": [{"cmd": rng.choice(COMMAND_TABLE), "payload_seed": rng.getrandbits(32), "size": rng.choice([0, 8, 36, 100])} for _ in range(rng.choice([1, 2]))]}
     if rng.random() < 0.25:
         # state left over from earlier traffic on another network in the same process
         other = rng.choice([m for m in sorted(MAGICS) if m != network])
@@ -550,6 +554,12 @@ def execute(scenario, tape=None, keep_events=False):
             ref.append(("error", "eof-at-boundary", len(stream)))
         # -- the receiver
         for k, r in enumerate(ref):
+            if scenario.get("abandon_after") is not None and k >= scenario["abandon_after"]:
+                # the application loses interest: unread data (possibly already buffered by a
+                # read-ahead implementation) dies with this connection
+                faults.hit("connection-abandoned-with-unread-data")
+                fdesc = f"abandoned after {k} messages"
+                break
             before = sock.consumed
             try:
                 got = p2p.recv_msg(sock)
@@ -732,6 +742,7 @@ def shrink_candidates(scenario, tape):
     if scenario.get("reconnect"):
         sc = copy.deepcopy(scenario)
         del sc["reconnect"]
+        sc.pop("abandon_after", None)
         yield sc, tape
     if len(scenario["frames"]) > 1:
         for i in range(len(scenario["frames"]) - 1, -1, -1):
